@@ -242,7 +242,7 @@ func checkC05(c *Ctx, r *Report) {
 				return
 			}
 			key := fmt.Sprintf("%s:%s-status", fname(fn), ci.Name)
-			if mentionsRecorderStatus(c, st, 3) {
+			if isRecorderStatus(c, st, 5, nil) {
 				r.OK("C05-R4", key, in.Pos(), "status relayed from the backend attempt's recorder")
 			} else {
 				r.Bad("C05-R4", key, in.Pos(), "a backend error is relayed with a status other than the backend's own")
@@ -519,6 +519,81 @@ func isRecorderStatusAddr(c *Ctx, addr ssa.Value) bool {
 }
 
 // mentionsRecorderStatus: v is computed from a load of a recorder's status field (or a trivial getter of it).
+// isRecorderStatus: v IS the recorder's status — the field load (or its accessor), possibly converted, merged by a phi
+// whose every edge is, handed through a parameter (every known argument is), or handed back by a repo helper every
+// return of which is (with the helper's parameters standing for this call's arguments). Anything computed from other
+// data — a code found in the error body, a constant, an adjusted value — is not.
+func isRecorderStatus(c *Ctx, v ssa.Value, depth int, env map[*ssa.Parameter]ssa.Value) bool {
+	if v == nil || depth < 0 {
+		return false
+	}
+	if _, fld, ok := fieldOf(v); ok && recorderStatusFields(c)[fld] {
+		return true
+	}
+	if isRecorderStatusAddr(c, v) {
+		return true
+	}
+	switch x := v.(type) {
+	case *ssa.UnOp:
+		if x.Op == token.MUL {
+			return isRecorderStatus(c, x.X, depth-1, env)
+		}
+	case *ssa.Convert:
+		return isRecorderStatus(c, x.X, depth-1, env)
+	case *ssa.ChangeType:
+		return isRecorderStatus(c, x.X, depth-1, env)
+	case *ssa.Phi:
+		for _, e := range x.Edges {
+			if !isRecorderStatus(c, e, depth-1, env) {
+				return false
+			}
+		}
+		return len(x.Edges) > 0
+	case *ssa.Parameter:
+		if a, ok := env[x]; ok {
+			return isRecorderStatus(c, a, depth-1, nil)
+		}
+		bs := paramBindings[x]
+		for _, a := range bs {
+			if !isRecorderStatus(c, a, depth-1, nil) {
+				return false
+			}
+		}
+		return len(bs) > 0
+	case *ssa.Extract:
+		if call, ok := x.Tuple.(*ssa.Call); ok {
+			return helperHandsBackStatus(c, call, x.Index, depth, env)
+		}
+	case *ssa.Call:
+		return helperHandsBackStatus(c, x, 0, depth, env)
+	}
+	return false
+}
+
+func helperHandsBackStatus(c *Ctx, call *ssa.Call, idx, depth int, env map[*ssa.Parameter]ssa.Value) bool {
+	h := call.Call.StaticCallee()
+	if h == nil || h.Blocks == nil || !c.inRepo(h) {
+		return false
+	}
+	env2 := map[*ssa.Parameter]ssa.Value{}
+	for i, p := range h.Params {
+		if i < len(call.Call.Args) {
+			a := call.Call.Args[i]
+			if ap, ok := a.(*ssa.Parameter); ok && env[ap] != nil {
+				a = env[ap]
+			}
+			env2[p] = a
+		}
+	}
+	rets := returnsOf(h)
+	for _, ret := range rets {
+		if idx >= len(ret.Results) || !isRecorderStatus(c, ret.Results[idx], depth-1, env2) {
+			return false
+		}
+	}
+	return len(rets) > 0
+}
+
 func mentionsRecorderStatus(c *Ctx, v ssa.Value, depth int) bool {
 	if v == nil || depth < 0 {
 		return false
